@@ -86,15 +86,18 @@ class Claim(Signable):
         try:
             return super().from_bytes(data)
         except DecodeError:
-            claim = cls()
-            if data[0] == ord('{'):
-                claim.version = 0
-                compat.from_old_json_schema(claim, data)
-            elif data[0] not in (0, 1):
-                claim.version = 1
-                compat.from_types_v1(claim, data)
-            else:
+            if not data or data[0] in (0, 1):
                 raise
+            claim = cls()
+            try:
+                if data[0] == ord('{'):
+                    claim.version = 0
+                    compat.from_old_json_schema(claim, data)
+                else:
+                    claim.version = 1
+                    compat.from_types_v1(claim, data)
+            except (KeyError, TypeError, AttributeError, ValueError) as e:
+                raise DecodeError(f'Not a legacy claim payload: {e!r}')
             return claim
 
 
